@@ -11,6 +11,8 @@ FF = "rust/lance-table/src/feature_flags.rs"
 MW = "rust/lance/src/index/mem_wal.rs"
 OPT = "rust/lance/src/dataset/optimize.rs"
 FIELD = "rust/lance-core/src/datatypes/field.rs"
+PF = "rust/lance/src/index/prefilter.rs"
+EX = "rust/lance-index/src/scalar/expression.rs"
 
 MUTANTS = [
     # ------------------------------------------------------------------ C02
@@ -428,6 +430,34 @@ pub async fn plan_compaction(""", expect="mutator:dataset::optimize::drop_old_fi
             .collect::<Vec<RewrittenIndex>>();
         Vec::new()
     } else if""", expect="rewritten_indices"),
+    # ------------------------------------------------------------------ C19 range translation
+    dict(name="c19_range_gt_becomes_gteq", prop="C19", file=EX, what="`x > a AND x < b` keeps rows with x = a",
+         old="(Operator::Gt, Operator::Lt) => (Bound::Excluded(left_value), Bound::Excluded(right_value)),",
+         new="(Operator::Gt, Operator::Lt) => (Bound::Included(left_value), Bound::Excluded(right_value)),",
+         expect="maybe_range:Gt,Lt"),
+    dict(name="c19_range_upper_first_regressed", prop="C19", file=EX, what="the repaired `x <= a AND x > b` arm swapped back",
+         old="""        (Operator::LtEq, Operator::Gt) => {
+            (Bound::Excluded(right_value), Bound::Included(left_value))""",
+         new="""        (Operator::LtEq, Operator::Gt) => {
+            (Bound::Included(right_value), Bound::Excluded(left_value))""",
+         expect="maybe_range:LtEq,Gt"),
+    dict(name="c19_cmp_lteq_exclusive", prop="C19", file=EX, what="`x <= v` translated to an exclusive upper bound",
+         old="SargableQuery::Range(Bound::Unbounded, Bound::Included(value.clone()))",
+         new="SargableQuery::Range(Bound::Unbounded, Bound::Excluded(value.clone()))",
+         expect="visit_comparison:LtEq"),
+    dict(name="c19_between_sides_swapped", prop="C19", file=EX, what="visit_between swaps low and high",
+         old="let query = SargableQuery::Range(low.clone(), high.clone());", new="let query = SargableQuery::Range(high.clone(), low.clone());",
+         occ=0, expect="visit_between:sides"),
+    # ------------------------------------------------------------------ C22
+    dict(name="c22_unsorted_positions", prop="C22", file=PF, what="the stable-row-id deletion mask walks the deletion vector in hash-set order (the repaired defect)",
+         old="row_ids.mask(deletion_vector.to_sorted_iter()).unwrap();", new="row_ids.mask(deletion_vector.iter()).unwrap();",
+         expect="ORIGIN-sorted-positions|sorted:do_create_deletion_mask_row_id"),
+    dict(name="c22_combine_or", prop="C22", file=PF, what="the deletion mask is or-ed instead of and-ed into the final mask",
+         old="combined = combined & (*deleted_ids.get_ready()).clone();", new="combined = combined | (*deleted_ids.get_ready()).clone();",
+         expect="ARMS-combine|intersection"),
+    dict(name="c22_no_mask_with_deletions", prop="C22", file=PF, what="no deletion mask when nothing is missing, even with deletion files",
+         old="if missing_frags.is_empty() && frags_with_deletion_files.is_empty() {", new="if missing_frags.is_empty() {",
+         expect="DOM-deletion-mask|none-"),
     # ------------------------------------------------------------------ C43
     dict(name="c43_exclude_drops_nullability", prop="C43", file=FIELD, occ=1, what="Field::exclude returns the kept parent as nullable",
          old="                nullable: self.nullable,", new="                nullable: true,", expect="exclude:nullable"),
